@@ -867,6 +867,33 @@ def abandoned_disconnect_sweep(ctx: Ctx, prop: str) -> None:
                     record(ctx, prop, run_spec(spec), "abandoned-disconnect")
 
 
+def crossing_requests_sweep(ctx: Ctx, prop: str) -> None:
+    """A local graceful disconnect() whose DisconnectRequest crosses, on the wire, requests and traffic of the device's own (keep-alive ping, time
+    request of a `time: homeassistant` node, states, log lines): they arrive after the disconnect was initiated and before the device's answer or
+    the close.  None of them takes the initiation back: whatever ends the session afterwards (the answer, EOF, reset, the unanswered disconnect
+    running into its deadline), the stop callback fires once, with True, and the disconnect call itself returns as it would have without them."""
+    S = L.default_spec
+    t0 = L.core_start()
+    idx = 0
+    for framing in ("plain", "noise"):
+        for crossing in ("ping_req", "time_req", "ping_req,time_req", "time_req,state,log", "state", "pong"):
+            for gap in (0.0, 0.003):
+                for ending in ("dresp", "dresp,eof", "eof", "rst", "unanswered", "same-chunk-dresp"):
+                    idx += 1
+                    if not ctx.mine(idx):
+                        continue
+                    t = t0 + 1.0
+                    faults: list[dict[str, Any]] = [{"kind": "disconnect", "point": {"t": t}, "posclass": "crossing-request"}]
+                    if ending == "same-chunk-dresp":
+                        faults.append({"kind": f"chunk:{crossing},dresp", "point": {"t": t + gap}, "posclass": "crossing-request"})
+                    else:
+                        faults.append({"kind": f"chunk:{crossing}", "point": {"t": t + gap}, "posclass": "crossing-request"})
+                        if ending != "unanswered":
+                            faults.append({"kind": ending if ending in ("eof", "rst") else f"chunk:{ending}", "point": {"t": t + gap + 0.004}, "posclass": "crossing-request"})
+                    spec = S(framing=framing, device={"handlers": "no_disconnect_answer"}, program=[["connect"], ["sleep", 30.0]], faults=faults)
+                    record(ctx, prop, run_spec(spec), "crossing-request")
+
+
 def raising_on_stop_sweep(ctx: Ctx, prop: str) -> None:
     """The application's stop callback raises synchronously: whatever happens to that exception, the closing connection must still have
     released its transport, socket and timers (the callback is the LAST thing a close does)."""
@@ -897,16 +924,18 @@ def outside_loop_client_sweep(ctx: Ctx, prop: str) -> None:
     for framing in ("plain", "noise"):
         for keepalive, prog in ((20.0, [["connect"], ["sleep", 3.0], ["disconnect"]]), (1.0, [["connect"], ["sleep", 9.0], ["force"]])):
             for cause in ("none", "force", "disconnect", "eof", "rst", "etimedout", "garbage", "bad_pb", "peer_disconnect", "silence", "sendfail+cmd"):
-                idx += 1
-                if not ctx.mine(idx):
-                    continue
-                faults: list[dict[str, Any]] = []
-                if cause == "sendfail+cmd":
-                    faults = [{"kind": "sendfail", "point": {"t": t0 + 1.0}, "posclass": "client-built-outside-loop"}, {"kind": "cmd", "point": {"t": t0 + 1.1}, "posclass": "client-built-outside-loop"}]
-                elif cause != "none":
-                    faults = [{"kind": cause, "point": {"t": t0 + 1.0}, "posclass": "client-built-outside-loop"}]
-                spec = S(framing=framing, keepalive=keepalive, program=prog, client_outside_loop=True, faults=faults)
-                record(ctx, prop, run_spec(spec), "client-built-outside-loop")
+                # (built in synchronous code before any loop ran / inside an earlier asyncio.run() of the process whose loop is closed by now)
+                for built in (True, "closed-loop"):
+                    idx += 1
+                    if not ctx.mine(idx):
+                        continue
+                    faults: list[dict[str, Any]] = []
+                    if cause == "sendfail+cmd":
+                        faults = [{"kind": "sendfail", "point": {"t": t0 + 1.0}, "posclass": "client-built-outside-loop"}, {"kind": "cmd", "point": {"t": t0 + 1.1}, "posclass": "client-built-outside-loop"}]
+                    elif cause != "none":
+                        faults = [{"kind": cause, "point": {"t": t0 + 1.0}, "posclass": "client-built-outside-loop"}]
+                    spec = S(framing=framing, keepalive=keepalive, program=prog, client_outside_loop=built, faults=faults)
+                    record(ctx, prop, run_spec(spec), "client-built-outside-loop" if built is True else "client-built-in-an-earlier-closed-loop")
 
 
 def dropped_client_sweep(ctx: Ctx, prop: str) -> None:
